@@ -125,6 +125,14 @@ def _long_job(server, item):
                 break
     return out
 
+def _conv_job(server, item):
+    name, data = item
+    evs = [('L', l + b'\n') for l in data.split(b'\n') if l] + [('E',)]
+    res, status, err, ex = server.trace(evs, 0)
+    ok = status == 'ok' and len(res) == len(evs)
+    return {'name': name, 'value': data.decode('latin-1').split('\n')[3], 'ok': ok, 'status': status, 'err': err[-1500:], 'bytes': data.decode('latin-1')}
+
+
 def _junk_job(server, item):
     sid, lines, pos, junk, base_outs, base_dump = item
     evs = [('L', l) for l in lines[:pos]] + [('L', junk)] + [('L', l) for l in lines[pos:]]
@@ -300,6 +308,28 @@ def main(tier):
                               {'engine': 'E1-trace', 'conf': conf, 'kind': r['name'], 'length': r['len'], 'stderr': r['err']}, dedup='long|' + r['name'] + _site(r['err']))
         counts['long_lines'] = nlong
         evaluations += nlong
+
+        # ---- hostile field contents carried through complete conversations (queries, relays, verdicts, class rules)
+        hostile = ['%s%s%s%s%n', '%999999999d%n', '%*d%-2000s', 'A' * 700, '\x01\x02\x7f\xff', ':lead', 'a:b:c', '*?[x]\\', '~', '-', '0']
+        convs = []
+        for pos in range(10):
+            for h in hostile:
+                f = ['nick', 'user', 'ident', 'host.example', 'Real Name', 'acct', 'pass', 'acct:7', 'reason text', 'cls']
+                f[pos] = h
+                lines = ['1 C 10.0.0.1 1111 10.9.9.9 6667', '1 N %s' % f[3], '1 u %s' % f[2], '1 n %s' % f[0], '1 U %s :%s' % (f[1], f[4]), '1 P :+x %s %s' % (f[5], f[6]),
+                         '1 H %s' % f[9], '-1 X login.svc 1_1 :MORE %s' % f[8], '1 P :%s' % f[6], '-1 X login.svc 1_1 :OK %s' % f[7], '-1 X drone.svc 1_1 :AGAIN %s' % f[8],
+                         '2 C 10.0.0.2 2222 10.9.9.9 6667', '2 H', '2 P :+! %s %s' % (f[5], f[6]), '-1 X login.svc 2_2 :NO %s' % f[8], '-1 ? stats', '-1 ? config']
+                convs.append(('field%d' % pos, ('\n'.join(lines) + '\n').encode('latin-1')))
+        nconv = 0
+        for r in tp.imap(_conv_job, convs, chunksize=4):
+            if 'harness_error' in r:
+                raise common.HarnessError(r['harness_error'])
+            nconv += 1
+            if not r['ok']:
+                run.violation('C08.hostile-field', 'a conversation whose %s carries %r: %s %s' % (r['name'], r['value'][:40], r['status'], _site(r['err'])),
+                              {'engine': 'E1-trace', 'conf': conf, 'bytes': r['bytes'], 'stderr': r['err']}, dedup='hostile|' + r['name'] + _site(r['err']))
+        counts['hostile_field_conversations'] = nconv
+        evaluations += nconv
 
         # ---- 5: junk insensitivity
         items = []
